@@ -456,3 +456,402 @@ def exec_single(case):
         return finish(g, viol, probes, case, props + (("C11",) if focus == "C09" else ()))
     finally:
         g.close()
+
+
+# ------------------------------------------------------------------------------------------
+# profile: versions (C10 reads return only published versions, C11 ordering / rollback)
+# ------------------------------------------------------------------------------------------
+SDMF_HDR = ">BQ32s16sBBQQLLLLQQ"
+MDMF_HDR = ">BQ32sBBQQQQQQQQQQ"
+MUT_KINDS = ["flip", "seq+1", "seq-1", "root", "salt", "k", "n", "segsize", "datalen", "offset", "vkey", "sig", "chain", "bht",
+             "data", "privkey", "truncate", "replay", "foreign", "splice", "resign", "resign+key", "delete"]
+
+
+def parse_mut_share(data):
+    """field map for the two formats (independent of allmydata.mutable.layout)."""
+    if data is None or len(data) < 60:
+        return None
+    if data[0] == 0 and len(data) >= struct.calcsize(SDMF_HDR):
+        (ver, seq, root, iv, k, n, segsize, datalen, o_sig, o_chain, o_bht, o_data, o_priv, o_eof) = struct.unpack(SDMF_HDR, data[:struct.calcsize(SDMF_HDR)])
+        hl = struct.calcsize(SDMF_HDR)
+        return {"fmt": 0, "seq": seq, "root": root, "k": k, "n": n, "segsize": segsize, "datalen": datalen, "hdr": hl,
+                "signed_len": struct.calcsize(">BQ32s16sBBQQ"), "off_table": (75, ["L", "L", "L", "L", "Q", "Q"]),
+                "regions": {"vkey": (hl, o_sig), "sig": (o_sig, o_chain), "chain": (o_chain, o_bht), "bht": (o_bht, o_data),
+                            "data": (o_data, o_priv), "privkey": (o_priv, min(o_eof, len(data))), "salt": (41, 57)}}
+    if data[0] == 1 and len(data) >= struct.calcsize(MDMF_HDR):
+        (ver, seq, root, k, n, segsize, datalen, o_priv, o_chain, o_sig, o_vkey, o_vkey_end, o_data, o_bht, o_eof) = struct.unpack(MDMF_HDR, data[:struct.calcsize(MDMF_HDR)])
+        hl = struct.calcsize(MDMF_HDR)
+        return {"fmt": 1, "seq": seq, "root": root, "k": k, "n": n, "segsize": segsize, "datalen": datalen, "hdr": hl,
+                "signed_len": struct.calcsize(">BQ32sBBQQ"), "off_table": (59, ["Q"] * 8),
+                "regions": {"privkey": (o_priv, o_chain), "chain": (o_chain, o_sig), "sig": (o_sig, o_vkey), "vkey": (o_vkey, o_vkey_end),
+                            "data": (o_data, o_bht), "bht": (o_bht, min(o_eof, len(data))), "salt": (o_data, min(o_data + 16, len(data)))}}
+    return None
+
+
+def rebuild_container(raw, newdata):
+    """Put new share data into a mutable container file image (data length field at 84, data at 468;
+    the extra-lease area follows the data: keep whatever followed)."""
+    (datalen,) = struct.unpack(">Q", raw[84:92])
+    tail = raw[468 + datalen:]
+    (extra_off,) = struct.unpack(">Q", raw[92:100])
+    new_extra = 468 + len(newdata)
+    head = raw[:84] + struct.pack(">Q", len(newdata)) + struct.pack(">Q", new_extra) + raw[100:468]
+    if not tail:
+        tail = b"\x00\x00\x00\x00"
+    return head + newdata + tail
+
+
+def mutate_mut_share(raw, kind, p1, p2, ctx):
+    data = parse_mutable_container(raw)
+    if data is None:
+        return raw
+    sb = bytearray(data)
+    p = parse_mut_share(data)
+
+    def flip(i):
+        if 0 <= i < len(sb):
+            sb[i] ^= (1 + p2 % 255)
+
+    def flip_region(name):
+        a, b = p["regions"][name]
+        b = min(b, len(sb))
+        if b > a:
+            flip(a + p1 % (b - a))
+            return True
+        return False
+    if kind == "delete":
+        return None
+    if kind in ("replay", "foreign"):
+        other = ctx.get(kind)
+        return other if other is not None else raw
+    if kind == "flip" or p is None:
+        flip(p1 % max(1, len(sb)))
+    elif kind in ("seq+1", "seq-1"):
+        seq = max(0, p["seq"] + (1 if kind == "seq+1" else -1))
+        sb[1:9] = struct.pack(">Q", seq)
+    elif kind == "root":
+        flip(9 + p1 % 32)
+    elif kind in ("k", "n", "segsize", "datalen"):
+        base = 57 if p["fmt"] == 0 else 41
+        pos = {"k": base, "n": base + 1, "segsize": base + 2, "datalen": base + 10}[kind]
+        width = 1 if kind in ("k", "n") else 8
+        cur = int.from_bytes(sb[pos:pos + width], "big")
+        new = [cur + 1, max(0, cur - 1), 0, cur * 2, 255 if width == 1 else cur + 1000][p2 % 5]
+        sb[pos:pos + width] = (new % (1 << (8 * width))).to_bytes(width, "big")
+    elif kind == "offset":
+        start, fields = p["off_table"]
+        idx = p1 % len(fields)
+        pos = start + sum(4 if f == "L" else 8 for f in fields[:idx])
+        width = 4 if fields[idx] == "L" else 8
+        cur = int.from_bytes(sb[pos:pos + width], "big")
+        new = [cur + 1, max(0, cur - 1), 0, cur + 32, len(sb)][p2 % 5]
+        sb[pos:pos + width] = (new % (1 << (8 * width))).to_bytes(width, "big")
+    elif kind in ("vkey", "sig", "chain", "bht", "data", "privkey", "salt"):
+        if not flip_region(kind):
+            flip(p1 % max(1, len(sb)))
+    elif kind == "truncate":
+        pts = sorted(set([0, 1, 9, 41, p["hdr"] - 1, p["hdr"]] + [x + d for r_ in p["regions"].values() for x in r_ for d in (-1, 0, 1)] + [p1 % max(1, len(sb))]))
+        pts = [x for x in pts if 0 <= x < len(sb)]
+        del sb[pts[p2 % len(pts)]:]
+    elif kind == "splice":
+        other = ctx.get("replay")
+        if other is not None:
+            od = parse_mutable_container(other)
+            if od and len(od) >= p["signed_len"]:
+                # an older version's signed prefix (and signature region if the layout agrees) on the newest data
+                sb[:p["signed_len"]] = od[:p["signed_len"]]
+    elif kind in ("resign", "resign+key"):
+        from allmydata.crypto import rsa as rsa_mod
+        pool = gridsim.rsa_pool()
+        priv, pub = rsa_mod.create_signing_keypair_from_string(pool[(p1 + 7) % len(pool)])
+        # forged prefix: bump the sequence number and alter the root hash, then sign with a key the attacker owns
+        sb[1:9] = struct.pack(">Q", p["seq"] + 1 + p2 % 3)
+        sb[9 + p1 % 32] ^= 0x11
+        sig = rsa_mod.sign_data(priv, bytes(sb[:p["signed_len"]]))
+        a, b = p["regions"]["sig"]
+        if b - a == len(sig):
+            sb[a:b] = sig
+        if kind == "resign+key":
+            va, vb = p["regions"]["vkey"]
+            vk = rsa_mod.der_string_from_verifying_key(pub)
+            if vb - va == len(vk):
+                sb[va:vb] = vk
+    return rebuild_container(raw, bytes(sb))
+
+
+def gen_versions(seed, tier, focus):
+    ch = Chooser(seed)
+    cfg = gen_common(ch, tier)
+    cfg["fmt"] = ch.pick("config", "fmt", ["SDMF", "MDMF"])
+    cfg["nservers"] = max(cfg["nservers"], 2)
+    sz = sizes_for(cfg)
+    W = "workload"
+    nver = ch.randint(W, "nver", 1, 4 if focus == "C10" else 6)
+    ops = [["publish", ch.pick(W, ("size", v), sz[1:]), ch.randint(W, ("pat", v), 1, 1 << 30),
+            # servers unavailable during this publish (C11)
+            sorted(ch.sample(W, ("down", v), range(cfg["nservers"]), ch.pick(W, ("ndown", v), [0, 0, 1, 2]))) if focus == "C11" and v else []]
+           for v in range(nver)]
+    muts = []
+    F = "faults"
+    if focus == "C10":
+        for j in range(ch.randint(F, "nmut", 1, 2 * cfg["n"])):
+            muts.append([ch.randrange(F, ("srv", j), cfg["nservers"]), ch.randrange(F, ("sh", j), cfg["n"]), ch.pick(F, ("kind", j), MUT_KINDS),
+                         ch.randrange(F, ("p1", j), 1 << 30), ch.randrange(F, ("p2", j), 1 << 30), ch.randrange(F, ("oldv", j), 8)])
+    else:
+        # stale shares of older versions left / replayed on chosen servers
+        for j in range(ch.randint(F, "nstale", 0, cfg["n"] + 2)):
+            muts.append([ch.randrange(F, ("srv", j), cfg["nservers"]), ch.randrange(F, ("sh", j), cfg["n"]),
+                         ch.pick(F, ("kind", j), ["replay", "replay", "replay", "delete"]),
+                         0, 0, ch.randrange(F, ("oldv", j), 8)])
+    reads = [["read", ch.pick(W, ("rcap", i), ["rw", "ro"]), sorted(ch.sample(W, ("rdown", i), range(cfg["nservers"]), ch.pick(W, ("nrdown", i), [0, 0, 0, 1, 2])))]
+             for i in range(ch.randint(W, "nreads", 1, 2))]
+    return {"engine": "mutsim", "profile": "versions", "focus": focus, "seed": seed, "cfg": cfg, "ops": ops + reads, "muts": muts, "faults": []}
+
+
+def observed_before_write(answers, caller, wrote_seq):
+    """Highest sequence number in the answers `caller` received before its first write of wrote_seq
+    (answers to its own writes echo the data *before* the write, so every answer counts)."""
+    return max([sq for a_ in answers if a_["caller"] == caller for sq in a_["seqs"] if sq != wrote_seq] + [0])
+
+
+def classify_unavailable(intact_v, queried, state, published, img_data, k):
+    """Why might a read legitimately have missed k intact shares?  (structural signature)"""
+    dirty = set()       # servers holding at least one share of this file that is not an intact published image
+    for (nm, sh), d in state.items():
+        v = share_version(d)
+        if not (v in published and d in img_data.get((v, sh), ())):
+            dirty.add(nm)
+    clean_q = queried - dirty
+    if len([1 for sh, srvs in intact_v.items() if srvs & clean_q]) >= k:
+        return "located-k-intact-on-clean-servers"
+    if len([1 for sh, srvs in intact_v.items() if srvs & queried]) >= k:
+        return "intact-shares-only-on-servers-that-also-hold-a-bad-share"
+    return "intact-shares-on-servers-never-asked"
+
+
+class ReadvMonitor(WireMonitor):
+    def __init__(self, grid, viol):
+        WireMonitor.__init__(self, grid, viol)
+        self.readvs = []
+        self.answers = []      # responses that actually reached the caller: (caller, callee, method, max seqnum seen or None)
+        grid.net.answer_hook = self.on_answer
+
+    def on_answer(self, caller, callee, methname, res):
+        if methname not in ("slot_readv", "slot_testv_and_readv_and_writev"):
+            return
+        seqs = []
+        ok = not isinstance(res, Failure)
+        if ok:
+            data = res if methname == "slot_readv" else (res[1] if isinstance(res, tuple) and len(res) > 1 else {})
+            if isinstance(data, dict):
+                for shnum, lst in data.items():
+                    for b in lst:
+                        if isinstance(b, bytes) and len(b) >= 9 and b[0] in (0, 1):
+                            seqs.append(struct.unpack(">Q", b[1:9])[0])
+        self.answers.append({"caller": caller, "callee": callee, "method": methname, "ok": ok, "seqs": seqs, "n": R.events})
+
+    def on_call(self, caller, callee, methname, args, kwargs, res):
+        WireMonitor.on_call(self, caller, callee, methname, args, kwargs, res)
+        if methname == "slot_readv":
+            self.readvs.append({"caller": caller, "callee": callee, "ok": not isinstance(res, Failure), "n": R.events})
+
+
+def exec_versions(case):
+    from sim.runner import child_tmp
+    cfg = case["cfg"]
+    focus = case["focus"]
+    props = {"C10": ("C10",), "C11": ("C11",)}[focus]
+    base = tempfile.mkdtemp(dir=child_tmp())
+    viol, probes = [], {}
+
+    def probe(nm, c=1):
+        probes[nm] = probes.get(nm, 0) + c
+
+    def bad(prop, clause, detail, sig=None):
+        viol.append({"clause": "%s.%s" % (prop, clause), "sig": sig or "%s.%s" % (prop, clause), "detail": detail})
+
+    g = build_grid(case, base)
+    try:
+        mon = ReadvMonitor(g, viol)
+        k, n = cfg["k"], cfg["n"]
+        w = g.add_client(k=k, happy=1, n=n, fmt=cfg["fmt"])
+        ver = MDMF_VERSION if cfg["fmt"] == "MDMF" else SDMF_VERSION
+        published = {}     # version id -> plaintext
+        images = []        # per publish: {(srv, shnum): raw container}
+        node = cap = si = None
+        last_seq = 0
+        pubs = [op for op in case["ops"] if op[0] == "publish"]
+        reads = [op for op in case["ops"] if op[0] == "read"]
+        # a second, unrelated mutable file for 'foreign' shares
+        foreign_raw = {}
+        if any(m[2] == "foreign" for m in case.get("muts", [])):
+            st, fn = run(w.create_mutable_file(MutableData(b"foreign file contents " * 5), version=ver))
+            if st == "ok":
+                fsi = si_of_cap(fn.get_uri())
+                for s in g.servers:
+                    for shnum, raw in s.shares_of(fsi).items():
+                        foreign_raw[shnum] = raw
+        prev_down = []
+        for vi, op in enumerate(pubs):
+            _, size, pat, down = op
+            data = pat_bytes(pat, size)
+            a0 = len(mon.answers)
+            up_for_w = set(s.name for i, s in enumerate(g.servers) if i not in down)
+            old_datas = set(d for d in (disk_state(g.servers, si).values() if si else []) if d)
+            for sidx in down:
+                if sidx < len(g.servers):
+                    g.net.disconnect(w.sim_name, g.servers[sidx].name, "server unavailable during publish %d" % vi)
+            if node is None:
+                st, res = run(w.create_mutable_file(MutableData(data), version=ver))
+                if st == "ok":
+                    node = res
+                    cap = node.get_uri()
+                    si = si_of_cap(cap)
+            else:
+                st, res = run(node.overwrite(MutableData(data)))
+            a_end = len(mon.answers)
+            settle(300_000)
+            for sidx in down:
+                if sidx < len(g.servers):
+                    g.reconnect(w, g.servers[sidx])
+            this_down, prev_down_now = down, prev_down
+            prev_down = down
+            if st != "ok":
+                probe("publish-failed-" + (err_name(res) if st == "err" else st))
+                if node is None:
+                    return finish(g, viol, probes, case, props)
+                continue
+            state = disk_state(g.servers, si)
+            vers = versions_on_disk(state)
+            newest = max(vers, key=lambda v: v[1])
+            # what this publish wrote: the version on the servers it could reach
+            wrote = [share_version(d)[1] for (nm, sh), d in state.items() if share_version(d) and nm in up_for_w and d not in old_datas]
+            if wrote and max(wrote) <= observed_before_write(mon.answers[a0:], w.sim_name, max(wrote)):
+                bad("C11", "seqnum-not-above-survey", "publish %d wrote sequence number %d although its own survey had seen %d" % (
+                    vi, max(wrote), observed_before_write(mon.answers[a0:], w.sim_name, max(wrote))))
+            if not this_down and not prev_down_now and newest[1] <= last_seq:
+                bad("C11", "seqnum-not-increased", "publish %d (all servers reachable, also during the previous publish) succeeded with sequence number %d, previous was %d" % (vi, newest[1], last_seq))
+            last_seq = max(last_seq, newest[1])
+            published[newest] = data
+            images.append({(s.name, shnum): raw for s in g.servers for shnum, raw in s.shares_of(si).items()
+                           if share_version(parse_mutable_container(raw)) == newest})
+            probe("published")
+        if node is None or not published:
+            return finish(g, viol, probes, case, props)
+        newest_v = max(published, key=lambda v: v[1])
+        # ---- adversary / stale shares
+        for (sidx, shnum, kind, p1, p2, oldv) in case.get("muts", []):
+            if sidx >= len(g.servers):
+                continue
+            srv = g.servers[sidx]
+            path = srv.share_path(si, shnum)
+            ctx = {}
+            older = images[oldv % len(images)]
+            cands = [raw for (nm, sh), raw in sorted(older.items()) if sh == shnum]
+            if cands:
+                ctx["replay"] = cands[0]
+            if shnum in foreign_raw:
+                ctx["foreign"] = foreign_raw[shnum]
+            if os.path.exists(path):
+                with open(path, "rb") as f:
+                    raw = f.read()
+                new = mutate_mut_share(raw, kind, p1, p2, ctx)
+            elif kind in ("replay", "foreign") and ctx.get(kind) is not None:
+                os.makedirs(os.path.dirname(path), exist_ok=True)
+                new = ctx[kind]
+            else:
+                continue
+            if new is None:
+                os.unlink(path)
+            else:
+                with open(path, "wb") as f:
+                    f.write(new)
+            probe("mut-" + kind)
+        # ground truth after tampering: which published versions are intact where
+        state = disk_state(g.servers, si)
+        intact = {}     # version -> {shnum: set(server)}
+        img_data = {}
+        for img in images:
+            for (nm, sh), raw in img.items():
+                d = parse_mutable_container(raw)
+                img_data.setdefault((share_version(d), sh), set()).add(d)
+        for (nm, sh), d in state.items():
+            v = share_version(d)
+            if v in published and d in img_data.get((v, sh), ()):
+                intact.setdefault(v, {}).setdefault(sh, set()).add(nm)
+        # ---- reads
+        for ri, op in enumerate(reads):
+            _, capkind, rdown = op
+            rd = g.add_client(k=k, happy=1, n=n)
+            for sidx in rdown:
+                if sidx < len(g.servers):
+                    g.net.disconnect(rd.sim_name, g.servers[sidx].name, "unreachable for this reader")
+            up_names = set(s.name for i, s in enumerate(g.servers) if i not in rdown)
+            rcap = cap if capkind == "rw" else node.get_readonly_uri()
+            n0 = len(mon.readvs)
+            an0 = len(mon.answers)
+            try:
+                st, res = run(rd.create_node_from_uri(rcap).download_best_version(), 300_000)
+            except EventCap:
+                bad(focus, "livelock", "read never quiesces")
+                break
+            queried = set(a_["callee"] for a_ in mon.answers[an0:] if a_["caller"] == rd.sim_name and a_["ok"])
+            asked = set(r["callee"] for r in mon.readvs[n0:] if r["caller"] == rd.sim_name) | set(
+                a_["callee"] for a_ in mon.answers[an0:] if a_["caller"] == rd.sim_name)
+
+            def recoverable_from(names):
+                out = []
+                for v, shmap in intact.items():
+                    if len([sh for sh, srvs in shmap.items() if srvs & names]) >= k:
+                        out.append(v)
+                return out
+            rec_up = recoverable_from(up_names)
+            if st == "hung":
+                bad(focus, "read-hung", "download_best_version never completed")
+                continue
+            if st == "ok":
+                probe("read-ok")
+                match = [v for v, pt in published.items() if pt == res]
+                if not match:
+                    bad("C10", "unpublished-bytes", "read returned %d bytes that are not the plaintext of any published version (muts=%r)" % (len(res), case.get("muts")))
+                    continue
+                got_v = max(match, key=lambda v: v[1])
+                if focus == "C11":
+                    rec_q = recoverable_from(queried)
+                    if rec_q:
+                        best = max(rec_q, key=lambda v: (v[1], v[2]))
+                        if got_v[1] < best[1]:
+                            bad("C11", "not-highest-located", "read returned version seq %d although version seq %d is recoverable from the servers whose answers it received (%r); stale=%r" % (
+                                got_v[1], best[1], sorted(queried), case.get("muts")))
+                    probe("read-newest" if got_v == newest_v else "read-older")
+            else:
+                probe("read-err-" + err_name(res))
+                if newest_v in rec_up and focus == "C10":
+                    # shares on reachable servers that claim the newest (seqnum, root hash) but are not intact
+                    tampered = set(sh for (nm, sh), d in state.items()
+                                   if nm in up_names and share_version(d) == newest_v and nm not in intact.get(newest_v, {}).get(sh, ()))
+                    bad("C10", "unavailable", "read failed with %s although %d intact shares of the newest published version are on reachable servers (k=%d, %d tampered shares claim the same version; muts=%r)" % (
+                        err_name(res), len([1 for sh, srvs in intact[newest_v].items() if srvs & up_names]), k, len(tampered), case.get("muts")),
+                        sig="C10.unavailable.%s.%s" % (
+                            "k-tampered-shares-claim-newest-version" if len(tampered) >= k else
+                            classify_unavailable(intact[newest_v], queried, state, published, img_data, k) + "." + capkind + "-cap",
+                            err_site(res)))
+                if focus == "C11" and rec_up and not case.get("muts"):
+                    bad("C11", "read-failed", "read failed with %s although a published version is recoverable from reachable servers" % err_name(res),
+                        sig="C11.read-failed." + err_site(res))
+            if focus == "C11":
+                # saw (from the servers that answered) a newer version it could not recover -> must have asked everybody
+                seen_versions = set()
+                for (nm, sh), d in state.items():
+                    if nm in queried and share_version(d) is not None and share_version(d) in published:
+                        seen_versions.add(share_version(d))
+                rec_q = recoverable_from(queried)
+                best_seq = max([v[1] for v in rec_q] or [0])
+                if any(v[1] > best_seq and v not in rec_q for v in seen_versions):
+                    probe("saw-unrecoverable-newer")
+                    if not up_names <= asked:
+                        bad("C11", "stopped-early", "the reader saw a newer version it could not recover but asked only %d of %d reachable servers" % (
+                            len(asked & up_names), len(up_names)))
+        return finish(g, viol, probes, case, props)
+    finally:
+        g.close()
